@@ -1509,6 +1509,12 @@ let rec map f = function
 | [] -> []
 | a :: t -> (f a) :: (map f t)
 
+(** val flat_map : ('a1 -> 'a2 list) -> 'a1 list -> 'a2 list **)
+
+let rec flat_map f = function
+| [] -> []
+| x :: t -> app (f x) (flat_map f t)
+
 (** val fold_left : ('a1 -> 'a2 -> 'a1) -> 'a2 list -> 'a1 -> 'a1 **)
 
 let rec fold_left f l a0 =
@@ -1521,6 +1527,12 @@ let rec fold_left f l a0 =
 let rec fold_right f a0 = function
 | [] -> a0
 | b :: t -> f b (fold_right f a0 t)
+
+(** val find : ('a1 -> bool) -> 'a1 list -> 'a1 option **)
+
+let rec find f = function
+| [] -> None
+| x :: tl -> if f x then Some x else find f tl
 
 (** val repeat : 'a1 -> nat -> 'a1 list **)
 
@@ -9368,6 +9380,1000 @@ let spec_entries_tls =
           false, false, false, false, true, false, false)),
           EmptyString))))))))))))))) (show_at r))) :: []))
 
+type tlsState =
+| SNone
+| SClientHello
+| SAskResumeSession
+| SResumeSession
+| SServerHello
+| SCertificate
+| SCertificateSt
+| SServerKeyExchange
+| SServerHelloDone
+| SClientKeyExchange
+| SClientChangeCipherSpec
+| SCRCertRequest
+| SCRHelloDone
+| SCRCert
+| SCRClientKeyExchange
+| SCRCertVerify
+| SNoCertSKE
+| SNoCertHelloDone
+| SNoCertCKE
+| SPskHelloDone
+| SPskCKE
+| SSessionEncrypted
+| SAlert
+| SFinished
+| SInvalid
+
+type hs_kind =
+| KHelloRequest
+| KClientHello
+| KServerHello
+| KServerHelloV13Draft18
+| KNewSessionTicket
+| KEndOfEarlyData
+| KHelloRetryRequest
+| KCertificate
+| KServerKeyExchange
+| KCertificateRequest
+| KServerDone
+| KCertificateVerify
+| KClientKeyExchange
+| KFinished
+| KCertificateStatus
+| KNextProtocol
+| KKeyUpdate
+
+type spat =
+| SP_any
+| SP_bind
+| SP_is of tlsState
+
+type hpat =
+| HP_any
+| HP_is of hs_kind
+
+type dpat =
+| DP_any
+| DP_is of bool
+
+type mpat =
+| MP_any
+| MP_handshake
+| MP_ccs
+| MP_alert
+| MP_appdata
+| MP_heartbeat
+
+type hrhs =
+| R_ok of tlsState
+| R_same
+| R_invalid
+| R_sid_split of tlsState * tlsState
+
+type orhs =
+| O_ok of tlsState
+| O_same
+| O_invalid
+| O_delegate
+| O_alert_split of tlsState
+
+(** val all_states : tlsState list **)
+
+let all_states =
+  SNone :: (SClientHello :: (SAskResumeSession :: (SResumeSession :: (SServerHello :: (SCertificate :: (SCertificateSt :: (SServerKeyExchange :: (SServerHelloDone :: (SClientKeyExchange :: (SClientChangeCipherSpec :: (SCRCertRequest :: (SCRHelloDone :: (SCRCert :: (SCRClientKeyExchange :: (SCRCertVerify :: (SNoCertSKE :: (SNoCertHelloDone :: (SNoCertCKE :: (SPskHelloDone :: (SPskCKE :: (SSessionEncrypted :: (SAlert :: (SFinished :: (SInvalid :: []))))))))))))))))))))))))
+
+(** val all_hs_kinds : hs_kind list **)
+
+let all_hs_kinds =
+  KHelloRequest :: (KClientHello :: (KServerHello :: (KServerHelloV13Draft18 :: (KNewSessionTicket :: (KEndOfEarlyData :: (KHelloRetryRequest :: (KCertificate :: (KServerKeyExchange :: (KCertificateRequest :: (KServerDone :: (KCertificateVerify :: (KClientKeyExchange :: (KFinished :: (KCertificateStatus :: (KNextProtocol :: (KKeyUpdate :: []))))))))))))))))
+
+(** val tlsState_beq : tlsState -> tlsState -> bool **)
+
+let tlsState_beq x y =
+  match x with
+  | SNone -> (match y with
+              | SNone -> true
+              | _ -> false)
+  | SClientHello -> (match y with
+                     | SClientHello -> true
+                     | _ -> false)
+  | SAskResumeSession -> (match y with
+                          | SAskResumeSession -> true
+                          | _ -> false)
+  | SResumeSession -> (match y with
+                       | SResumeSession -> true
+                       | _ -> false)
+  | SServerHello -> (match y with
+                     | SServerHello -> true
+                     | _ -> false)
+  | SCertificate -> (match y with
+                     | SCertificate -> true
+                     | _ -> false)
+  | SCertificateSt -> (match y with
+                       | SCertificateSt -> true
+                       | _ -> false)
+  | SServerKeyExchange ->
+    (match y with
+     | SServerKeyExchange -> true
+     | _ -> false)
+  | SServerHelloDone -> (match y with
+                         | SServerHelloDone -> true
+                         | _ -> false)
+  | SClientKeyExchange ->
+    (match y with
+     | SClientKeyExchange -> true
+     | _ -> false)
+  | SClientChangeCipherSpec ->
+    (match y with
+     | SClientChangeCipherSpec -> true
+     | _ -> false)
+  | SCRCertRequest -> (match y with
+                       | SCRCertRequest -> true
+                       | _ -> false)
+  | SCRHelloDone -> (match y with
+                     | SCRHelloDone -> true
+                     | _ -> false)
+  | SCRCert -> (match y with
+                | SCRCert -> true
+                | _ -> false)
+  | SCRClientKeyExchange ->
+    (match y with
+     | SCRClientKeyExchange -> true
+     | _ -> false)
+  | SCRCertVerify -> (match y with
+                      | SCRCertVerify -> true
+                      | _ -> false)
+  | SNoCertSKE -> (match y with
+                   | SNoCertSKE -> true
+                   | _ -> false)
+  | SNoCertHelloDone -> (match y with
+                         | SNoCertHelloDone -> true
+                         | _ -> false)
+  | SNoCertCKE -> (match y with
+                   | SNoCertCKE -> true
+                   | _ -> false)
+  | SPskHelloDone -> (match y with
+                      | SPskHelloDone -> true
+                      | _ -> false)
+  | SPskCKE -> (match y with
+                | SPskCKE -> true
+                | _ -> false)
+  | SSessionEncrypted -> (match y with
+                          | SSessionEncrypted -> true
+                          | _ -> false)
+  | SAlert -> (match y with
+               | SAlert -> true
+               | _ -> false)
+  | SFinished -> (match y with
+                  | SFinished -> true
+                  | _ -> false)
+  | SInvalid -> (match y with
+                 | SInvalid -> true
+                 | _ -> false)
+
+(** val hs_kind_beq : hs_kind -> hs_kind -> bool **)
+
+let hs_kind_beq x y =
+  match x with
+  | KHelloRequest -> (match y with
+                      | KHelloRequest -> true
+                      | _ -> false)
+  | KClientHello -> (match y with
+                     | KClientHello -> true
+                     | _ -> false)
+  | KServerHello -> (match y with
+                     | KServerHello -> true
+                     | _ -> false)
+  | KServerHelloV13Draft18 ->
+    (match y with
+     | KServerHelloV13Draft18 -> true
+     | _ -> false)
+  | KNewSessionTicket -> (match y with
+                          | KNewSessionTicket -> true
+                          | _ -> false)
+  | KEndOfEarlyData -> (match y with
+                        | KEndOfEarlyData -> true
+                        | _ -> false)
+  | KHelloRetryRequest ->
+    (match y with
+     | KHelloRetryRequest -> true
+     | _ -> false)
+  | KCertificate -> (match y with
+                     | KCertificate -> true
+                     | _ -> false)
+  | KServerKeyExchange ->
+    (match y with
+     | KServerKeyExchange -> true
+     | _ -> false)
+  | KCertificateRequest ->
+    (match y with
+     | KCertificateRequest -> true
+     | _ -> false)
+  | KServerDone -> (match y with
+                    | KServerDone -> true
+                    | _ -> false)
+  | KCertificateVerify ->
+    (match y with
+     | KCertificateVerify -> true
+     | _ -> false)
+  | KClientKeyExchange ->
+    (match y with
+     | KClientKeyExchange -> true
+     | _ -> false)
+  | KFinished -> (match y with
+                  | KFinished -> true
+                  | _ -> false)
+  | KCertificateStatus ->
+    (match y with
+     | KCertificateStatus -> true
+     | _ -> false)
+  | KNextProtocol -> (match y with
+                      | KNextProtocol -> true
+                      | _ -> false)
+  | KKeyUpdate -> (match y with
+                   | KKeyUpdate -> true
+                   | _ -> false)
+
+(** val hs_arms : (((spat * hpat) * dpat) * hrhs) list **)
+
+let hs_arms =
+  ((((SP_is SNone), (HP_is KClientHello)), (DP_is true)), (R_sid_split
+    (SAskResumeSession, SClientHello))) :: (((((SP_is SClientHello), (HP_is
+    KServerHello)), (DP_is false)), (R_ok SServerHello)) :: (((((SP_is
+    SServerHello), (HP_is KCertificate)), (DP_is false)), (R_ok
+    SCertificate)) :: (((((SP_is SCertificate), (HP_is KServerKeyExchange)),
+    (DP_is false)), (R_ok SServerKeyExchange)) :: (((((SP_is SCertificate),
+    (HP_is KCertificateStatus)), (DP_is false)), (R_ok
+    SCertificateSt)) :: (((((SP_is SCertificateSt), (HP_is
+    KServerKeyExchange)), (DP_is false)), (R_ok
+    SServerKeyExchange)) :: (((((SP_is SServerKeyExchange), (HP_is
+    KServerDone)), (DP_is false)), (R_ok SServerHelloDone)) :: (((((SP_is
+    SServerHelloDone), (HP_is KClientKeyExchange)), (DP_is true)), (R_ok
+    SClientKeyExchange)) :: (((((SP_is SCertificate), (HP_is
+    KCertificateRequest)), (DP_is false)), (R_ok
+    SCRCertRequest)) :: (((((SP_is SServerKeyExchange), (HP_is
+    KCertificateRequest)), (DP_is false)), (R_ok
+    SCRCertRequest)) :: (((((SP_is SCRCertRequest), (HP_is KServerDone)),
+    (DP_is false)), (R_ok SCRHelloDone)) :: (((((SP_is SCRHelloDone), (HP_is
+    KCertificate)), (DP_is true)), (R_ok SCRCert)) :: (((((SP_is SCRCert),
+    (HP_is KClientKeyExchange)), (DP_is true)), (R_ok
+    SCRClientKeyExchange)) :: (((((SP_is SCRClientKeyExchange), (HP_is
+    KCertificateVerify)), (DP_is true)), (R_ok SCRCertVerify)) :: (((((SP_is
+    SServerHello), (HP_is KServerKeyExchange)), (DP_is false)), (R_ok
+    SNoCertSKE)) :: (((((SP_is SNoCertSKE), (HP_is KServerDone)), (DP_is
+    false)), (R_ok SNoCertHelloDone)) :: (((((SP_is SNoCertHelloDone), (HP_is
+    KClientKeyExchange)), (DP_is true)), (R_ok SNoCertCKE)) :: (((((SP_is
+    SCertificate), (HP_is KServerDone)), (DP_is false)), (R_ok
+    SPskHelloDone)) :: (((((SP_is SPskHelloDone), (HP_is
+    KClientKeyExchange)), (DP_is true)), (R_ok SPskCKE)) :: (((((SP_is
+    SAskResumeSession), (HP_is KServerHello)), (DP_is false)), (R_ok
+    SResumeSession)) :: (((((SP_is SResumeSession), (HP_is KCertificate)),
+    (DP_is false)), (R_ok SCertificate)) :: (((((SP_is SClientHello), (HP_is
+    KServerHelloV13Draft18)), (DP_is false)), (R_ok
+    SClientChangeCipherSpec)) :: (((((SP_is SNone), (HP_is KHelloRequest)),
+    DP_any), R_invalid) :: ((((SP_bind, (HP_is KHelloRequest)), DP_any),
+    R_same) :: (((((SP_is SClientChangeCipherSpec), (HP_is
+    KNewSessionTicket)), (DP_is false)), (R_ok
+    SClientChangeCipherSpec)) :: ((((SP_any, HP_any), DP_any),
+    R_invalid) :: [])))))))))))))))))))))))))
+
+(** val outer_arms : (((spat * mpat) * dpat) * orhs) list **)
+
+let outer_arms =
+  ((((SP_is SInvalid), MP_any), DP_any), (O_ok SInvalid)) :: (((((SP_is
+    SSessionEncrypted), MP_any), DP_any), (O_ok
+    SSessionEncrypted)) :: (((((SP_is SFinished), MP_any), DP_any), (O_ok
+    SInvalid)) :: ((((SP_any, MP_handshake), DP_any),
+    O_delegate) :: (((((SP_is SClientKeyExchange), MP_ccs), DP_any), (O_ok
+    SClientChangeCipherSpec)) :: (((((SP_is SClientChangeCipherSpec),
+    MP_ccs), (DP_is false)), (O_ok SSessionEncrypted)) :: (((((SP_is
+    SCRClientKeyExchange), MP_ccs), DP_any), (O_ok
+    SClientChangeCipherSpec)) :: (((((SP_is SCRCertVerify), MP_ccs), DP_any),
+    (O_ok SClientChangeCipherSpec)) :: (((((SP_is SNoCertCKE), MP_ccs),
+    DP_any), (O_ok SClientChangeCipherSpec)) :: (((((SP_is SPskCKE), MP_ccs),
+    DP_any), (O_ok SClientChangeCipherSpec)) :: (((((SP_is SResumeSession),
+    MP_ccs), DP_any), (O_ok SClientChangeCipherSpec)) :: (((((SP_is
+    SAskResumeSession), MP_ccs), (DP_is true)), (O_ok
+    SAskResumeSession)) :: ((((SP_bind, MP_alert), DP_any), (O_alert_split
+    SFinished)) :: ((((SP_any, MP_any), DP_any), O_invalid) :: [])))))))))))))
+
+(** val alert_keep_severity : n **)
+
+let alert_keep_severity =
+  Npos XH
+
+type mkind =
+| MkHs of hs_kind * bool
+| MkCcs
+| MkAlert of n * n
+| MkAppData
+| MkHeartbeat
+
+type akind =
+| AHs of hs_kind * bool
+| ACcs
+| AAlert of bool
+| AAppData
+| AHeartbeat
+
+(** val abs_kind : n -> mkind -> akind **)
+
+let abs_kind keep_sev = function
+| MkHs (k, s) -> AHs (k, s)
+| MkCcs -> ACcs
+| MkAlert (sev, _) -> AAlert (N.eqb sev keep_sev)
+| MkAppData -> AAppData
+| MkHeartbeat -> AHeartbeat
+
+(** val spat_m : spat -> tlsState -> bool **)
+
+let spat_m p0 s =
+  match p0 with
+  | SP_is s' -> tlsState_beq s s'
+  | _ -> true
+
+(** val dpat_m : dpat -> bool -> bool **)
+
+let dpat_m p0 d =
+  match p0 with
+  | DP_any -> true
+  | DP_is b -> eqb b d
+
+(** val hpat_m : hpat -> hs_kind -> bool **)
+
+let hpat_m p0 k =
+  match p0 with
+  | HP_any -> true
+  | HP_is k' -> hs_kind_beq k k'
+
+(** val mpat_m : mpat -> akind -> bool **)
+
+let mpat_m p0 a =
+  match p0 with
+  | MP_any -> true
+  | MP_handshake -> (match a with
+                     | AHs (_, _) -> true
+                     | _ -> false)
+  | MP_ccs -> (match a with
+               | ACcs -> true
+               | _ -> false)
+  | MP_alert -> (match a with
+                 | AAlert _ -> true
+                 | _ -> false)
+  | MP_appdata -> (match a with
+                   | AAppData -> true
+                   | _ -> false)
+  | MP_heartbeat -> (match a with
+                     | AHeartbeat -> true
+                     | _ -> false)
+
+(** val hs_first :
+    (((spat * hpat) * dpat) * hrhs) list -> tlsState -> hs_kind -> bool ->
+    bool -> tlsState option **)
+
+let rec hs_first arms st k sid d =
+  match arms with
+  | [] -> None
+  | p0 :: t ->
+    let (p1, r) = p0 in
+    let (p2, dp) = p1 in
+    let (sp, hp) = p2 in
+    if (&&) ((&&) (spat_m sp st) (hpat_m hp k)) (dpat_m dp d)
+    then (match r with
+          | R_ok s -> Some s
+          | R_same -> Some st
+          | R_invalid -> None
+          | R_sid_split (a, b) -> Some (if sid then a else b))
+    else hs_first t st k sid d
+
+(** val tls_state_transition_handshake :
+    tlsState -> hs_kind -> bool -> bool -> tlsState option **)
+
+let tls_state_transition_handshake =
+  hs_first hs_arms
+
+(** val outer_first :
+    (((spat * mpat) * dpat) * orhs) list -> tlsState -> akind -> bool ->
+    tlsState option **)
+
+let rec outer_first arms st a d =
+  match arms with
+  | [] -> None
+  | p0 :: t ->
+    let (p1, r) = p0 in
+    let (p2, dp) = p1 in
+    let (sp, mp) = p2 in
+    if (&&) ((&&) (spat_m sp st) (mpat_m mp a)) (dpat_m dp d)
+    then (match r with
+          | O_ok s -> Some s
+          | O_same -> Some st
+          | O_invalid -> None
+          | O_delegate ->
+            (match a with
+             | AHs (k, sid) -> tls_state_transition_handshake st k sid d
+             | _ -> None)
+          | O_alert_split other ->
+            (match a with
+             | AAlert keeps -> Some (if keeps then st else other)
+             | _ -> None))
+    else outer_first t st a d
+
+(** val transition_a : tlsState -> akind -> bool -> tlsState option **)
+
+let transition_a =
+  outer_first outer_arms
+
+(** val tls_state_transition :
+    tlsState -> mkind -> bool -> tlsState option **)
+
+let tls_state_transition st m to_server =
+  transition_a st (abs_kind alert_keep_severity m) to_server
+
+(** val state_name : tlsState -> string **)
+
+let state_name = function
+| SNone ->
+  String ((Ascii (false, true, true, true, false, false, true, false)),
+    (String ((Ascii (true, true, true, true, false, true, true, false)),
+    (String ((Ascii (false, true, true, true, false, true, true, false)),
+    (String ((Ascii (true, false, true, false, false, true, true, false)),
+    EmptyString)))))))
+| SClientHello ->
+  String ((Ascii (true, true, false, false, false, false, true, false)),
+    (String ((Ascii (false, false, true, true, false, true, true, false)),
+    (String ((Ascii (true, false, false, true, false, true, true, false)),
+    (String ((Ascii (true, false, true, false, false, true, true, false)),
+    (String ((Ascii (false, true, true, true, false, true, true, false)),
+    (String ((Ascii (false, false, true, false, true, true, true, false)),
+    (String ((Ascii (false, false, false, true, false, false, true, false)),
+    (String ((Ascii (true, false, true, false, false, true, true, false)),
+    (String ((Ascii (false, false, true, true, false, true, true, false)),
+    (String ((Ascii (false, false, true, true, false, true, true, false)),
+    (String ((Ascii (true, true, true, true, false, true, true, false)),
+    EmptyString)))))))))))))))))))))
+| SAskResumeSession ->
+  String ((Ascii (true, false, false, false, false, false, true, false)),
+    (String ((Ascii (true, true, false, false, true, true, true, false)),
+    (String ((Ascii (true, true, false, true, false, true, true, false)),
+    (String ((Ascii (false, true, false, false, true, false, true, false)),
+    (String ((Ascii (true, false, true, false, false, true, true, false)),
+    (String ((Ascii (true, true, false, false, true, true, true, false)),
+    (String ((Ascii (true, false, true, false, true, true, true, false)),
+    (String ((Ascii (true, false, true, true, false, true, true, false)),
+    (String ((Ascii (true, false, true, false, false, true, true, false)),
+    (String ((Ascii (true, true, false, false, true, false, true, false)),
+    (String ((Ascii (true, false, true, false, false, true, true, false)),
+    (String ((Ascii (true, true, false, false, true, true, true, false)),
+    (String ((Ascii (true, true, false, false, true, true, true, false)),
+    (String ((Ascii (true, false, false, true, false, true, true, false)),
+    (String ((Ascii (true, true, true, true, false, true, true, false)),
+    (String ((Ascii (false, true, true, true, false, true, true, false)),
+    EmptyString)))))))))))))))))))))))))))))))
+| SResumeSession ->
+  String ((Ascii (false, true, false, false, true, false, true, false)),
+    (String ((Ascii (true, false, true, false, false, true, true, false)),
+    (String ((Ascii (true, true, false, false, true, true, true, false)),
+    (String ((Ascii (true, false, true, false, true, true, true, false)),
+    (String ((Ascii (true, false, true, true, false, true, true, false)),
+    (String ((Ascii (true, false, true, false, false, true, true, false)),
+    (String ((Ascii (true, true, false, false, true, false, true, false)),
+    (String ((Ascii (true, false, true, false, false, true, true, false)),
+    (String ((Ascii (true, true, false, false, true, true, true, false)),
+    (String ((Ascii (true, true, false, false, true, true, true, false)),
+    (String ((Ascii (true, false, false, true, false, true, true, false)),
+    (String ((Ascii (true, true, true, true, false, true, true, false)),
+    (String ((Ascii (false, true, true, true, false, true, true, false)),
+    EmptyString)))))))))))))))))))))))))
+| SServerHello ->
+  String ((Ascii (true, true, false, false, true, false, true, false)),
+    (String ((Ascii (true, false, true, false, false, true, true, false)),
+    (String ((Ascii (false, true, false, false, true, true, true, false)),
+    (String ((Ascii (false, true, true, false, true, true, true, false)),
+    (String ((Ascii (true, false, true, false, false, true, true, false)),
+    (String ((Ascii (false, true, false, false, true, true, true, false)),
+    (String ((Ascii (false, false, false, true, false, false, true, false)),
+    (String ((Ascii (true, false, true, false, false, true, true, false)),
+    (String ((Ascii (false, false, true, true, false, true, true, false)),
+    (String ((Ascii (false, false, true, true, false, true, true, false)),
+    (String ((Ascii (true, true, true, true, false, true, true, false)),
+    EmptyString)))))))))))))))))))))
+| SCertificate ->
+  String ((Ascii (true, true, false, false, false, false, true, false)),
+    (String ((Ascii (true, false, true, false, false, true, true, false)),
+    (String ((Ascii (false, true, false, false, true, true, true, false)),
+    (String ((Ascii (false, false, true, false, true, true, true, false)),
+    (String ((Ascii (true, false, false, true, false, true, true, false)),
+    (String ((Ascii (false, true, true, false, false, true, true, false)),
+    (String ((Ascii (true, false, false, true, false, true, true, false)),
+    (String ((Ascii (true, true, false, false, false, true, true, false)),
+    (String ((Ascii (true, false, false, false, false, true, true, false)),
+    (String ((Ascii (false, false, true, false, true, true, true, false)),
+    (String ((Ascii (true, false, true, false, false, true, true, false)),
+    EmptyString)))))))))))))))))))))
+| SCertificateSt ->
+  String ((Ascii (true, true, false, false, false, false, true, false)),
+    (String ((Ascii (true, false, true, false, false, true, true, false)),
+    (String ((Ascii (false, true, false, false, true, true, true, false)),
+    (String ((Ascii (false, false, true, false, true, true, true, false)),
+    (String ((Ascii (true, false, false, true, false, true, true, false)),
+    (String ((Ascii (false, true, true, false, false, true, true, false)),
+    (String ((Ascii (true, false, false, true, false, true, true, false)),
+    (String ((Ascii (true, true, false, false, false, true, true, false)),
+    (String ((Ascii (true, false, false, false, false, true, true, false)),
+    (String ((Ascii (false, false, true, false, true, true, true, false)),
+    (String ((Ascii (true, false, true, false, false, true, true, false)),
+    (String ((Ascii (true, true, false, false, true, false, true, false)),
+    (String ((Ascii (false, false, true, false, true, true, true, false)),
+    EmptyString)))))))))))))))))))))))))
+| SServerKeyExchange ->
+  String ((Ascii (true, true, false, false, true, false, true, false)),
+    (String ((Ascii (true, false, true, false, false, true, true, false)),
+    (String ((Ascii (false, true, false, false, true, true, true, false)),
+    (String ((Ascii (false, true, true, false, true, true, true, false)),
+    (String ((Ascii (true, false, true, false, false, true, true, false)),
+    (String ((Ascii (false, true, false, false, true, true, true, false)),
+    (String ((Ascii (true, true, false, true, false, false, true, false)),
+    (String ((Ascii (true, false, true, false, false, true, true, false)),
+    (String ((Ascii (true, false, false, true, true, true, true, false)),
+    (String ((Ascii (true, false, true, false, false, false, true, false)),
+    (String ((Ascii (false, false, false, true, true, true, true, false)),
+    (String ((Ascii (true, true, false, false, false, true, true, false)),
+    (String ((Ascii (false, false, false, true, false, true, true, false)),
+    (String ((Ascii (true, false, false, false, false, true, true, false)),
+    (String ((Ascii (false, true, true, true, false, true, true, false)),
+    (String ((Ascii (true, true, true, false, false, true, true, false)),
+    (String ((Ascii (true, false, true, false, false, true, true, false)),
+    EmptyString)))))))))))))))))))))))))))))))))
+| SServerHelloDone ->
+  String ((Ascii (true, true, false, false, true, false, true, false)),
+    (String ((Ascii (true, false, true, false, false, true, true, false)),
+    (String ((Ascii (false, true, false, false, true, true, true, false)),
+    (String ((Ascii (false, true, true, false, true, true, true, false)),
+    (String ((Ascii (true, false, true, false, false, true, true, false)),
+    (String ((Ascii (false, true, false, false, true, true, true, false)),
+    (String ((Ascii (false, false, false, true, false, false, true, false)),
+    (String ((Ascii (true, false, true, false, false, true, true, false)),
+    (String ((Ascii (false, false, true, true, false, true, true, false)),
+    (String ((Ascii (false, false, true, true, false, true, true, false)),
+    (String ((Ascii (true, true, true, true, false, true, true, false)),
+    (String ((Ascii (false, false, true, false, false, false, true, false)),
+    (String ((Ascii (true, true, true, true, false, true, true, false)),
+    (String ((Ascii (false, true, true, true, false, true, true, false)),
+    (String ((Ascii (true, false, true, false, false, true, true, false)),
+    EmptyString)))))))))))))))))))))))))))))
+| SClientKeyExchange ->
+  String ((Ascii (true, true, false, false, false, false, true, false)),
+    (String ((Ascii (false, false, true, true, false, true, true, false)),
+    (String ((Ascii (true, false, false, true, false, true, true, false)),
+    (String ((Ascii (true, false, true, false, false, true, true, false)),
+    (String ((Ascii (false, true, true, true, false, true, true, false)),
+    (String ((Ascii (false, false, true, false, true, true, true, false)),
+    (String ((Ascii (true, true, false, true, false, false, true, false)),
+    (String ((Ascii (true, false, true, false, false, true, true, false)),
+    (String ((Ascii (true, false, false, true, true, true, true, false)),
+    (String ((Ascii (true, false, true, false, false, false, true, false)),
+    (String ((Ascii (false, false, false, true, true, true, true, false)),
+    (String ((Ascii (true, true, false, false, false, true, true, false)),
+    (String ((Ascii (false, false, false, true, false, true, true, false)),
+    (String ((Ascii (true, false, false, false, false, true, true, false)),
+    (String ((Ascii (false, true, true, true, false, true, true, false)),
+    (String ((Ascii (true, true, true, false, false, true, true, false)),
+    (String ((Ascii (true, false, true, false, false, true, true, false)),
+    EmptyString)))))))))))))))))))))))))))))))))
+| SClientChangeCipherSpec ->
+  String ((Ascii (true, true, false, false, false, false, true, false)),
+    (String ((Ascii (false, false, true, true, false, true, true, false)),
+    (String ((Ascii (true, false, false, true, false, true, true, false)),
+    (String ((Ascii (true, false, true, false, false, true, true, false)),
+    (String ((Ascii (false, true, true, true, false, true, true, false)),
+    (String ((Ascii (false, false, true, false, true, true, true, false)),
+    (String ((Ascii (true, true, false, false, false, false, true, false)),
+    (String ((Ascii (false, false, false, true, false, true, true, false)),
+    (String ((Ascii (true, false, false, false, false, true, true, false)),
+    (String ((Ascii (false, true, true, true, false, true, true, false)),
+    (String ((Ascii (true, true, true, false, false, true, true, false)),
+    (String ((Ascii (true, false, true, false, false, true, true, false)),
+    (String ((Ascii (true, true, false, false, false, false, true, false)),
+    (String ((Ascii (true, false, false, true, false, true, true, false)),
+    (String ((Ascii (false, false, false, false, true, true, true, false)),
+    (String ((Ascii (false, false, false, true, false, true, true, false)),
+    (String ((Ascii (true, false, true, false, false, true, true, false)),
+    (String ((Ascii (false, true, false, false, true, true, true, false)),
+    (String ((Ascii (true, true, false, false, true, false, true, false)),
+    (String ((Ascii (false, false, false, false, true, true, true, false)),
+    (String ((Ascii (true, false, true, false, false, true, true, false)),
+    (String ((Ascii (true, true, false, false, false, true, true, false)),
+    EmptyString)))))))))))))))))))))))))))))))))))))))))))
+| SCRCertRequest ->
+  String ((Ascii (true, true, false, false, false, false, true, false)),
+    (String ((Ascii (false, true, false, false, true, false, true, false)),
+    (String ((Ascii (true, true, false, false, false, false, true, false)),
+    (String ((Ascii (true, false, true, false, false, true, true, false)),
+    (String ((Ascii (false, true, false, false, true, true, true, false)),
+    (String ((Ascii (false, false, true, false, true, true, true, false)),
+    (String ((Ascii (false, true, false, false, true, false, true, false)),
+    (String ((Ascii (true, false, true, false, false, true, true, false)),
+    (String ((Ascii (true, false, false, false, true, true, true, false)),
+    (String ((Ascii (true, false, true, false, true, true, true, false)),
+    (String ((Ascii (true, false, true, false, false, true, true, false)),
+    (String ((Ascii (true, true, false, false, true, true, true, false)),
+    (String ((Ascii (false, false, true, false, true, true, true, false)),
+    EmptyString)))))))))))))))))))))))))
+| SCRHelloDone ->
+  String ((Ascii (true, true, false, false, false, false, true, false)),
+    (String ((Ascii (false, true, false, false, true, false, true, false)),
+    (String ((Ascii (false, false, false, true, false, false, true, false)),
+    (String ((Ascii (true, false, true, false, false, true, true, false)),
+    (String ((Ascii (false, false, true, true, false, true, true, false)),
+    (String ((Ascii (false, false, true, true, false, true, true, false)),
+    (String ((Ascii (true, true, true, true, false, true, true, false)),
+    (String ((Ascii (false, false, true, false, false, false, true, false)),
+    (String ((Ascii (true, true, true, true, false, true, true, false)),
+    (String ((Ascii (false, true, true, true, false, true, true, false)),
+    (String ((Ascii (true, false, true, false, false, true, true, false)),
+    EmptyString)))))))))))))))))))))
+| SCRCert ->
+  String ((Ascii (true, true, false, false, false, false, true, false)),
+    (String ((Ascii (false, true, false, false, true, false, true, false)),
+    (String ((Ascii (true, true, false, false, false, false, true, false)),
+    (String ((Ascii (true, false, true, false, false, true, true, false)),
+    (String ((Ascii (false, true, false, false, true, true, true, false)),
+    (String ((Ascii (false, false, true, false, true, true, true, false)),
+    EmptyString)))))))))))
+| SCRClientKeyExchange ->
+  String ((Ascii (true, true, false, false, false, false, true, false)),
+    (String ((Ascii (false, true, false, false, true, false, true, false)),
+    (String ((Ascii (true, true, false, false, false, false, true, false)),
+    (String ((Ascii (false, false, true, true, false, true, true, false)),
+    (String ((Ascii (true, false, false, true, false, true, true, false)),
+    (String ((Ascii (true, false, true, false, false, true, true, false)),
+    (String ((Ascii (false, true, true, true, false, true, true, false)),
+    (String ((Ascii (false, false, true, false, true, true, true, false)),
+    (String ((Ascii (true, true, false, true, false, false, true, false)),
+    (String ((Ascii (true, false, true, false, false, true, true, false)),
+    (String ((Ascii (true, false, false, true, true, true, true, false)),
+    (String ((Ascii (true, false, true, false, false, false, true, false)),
+    (String ((Ascii (false, false, false, true, true, true, true, false)),
+    (String ((Ascii (true, true, false, false, false, true, true, false)),
+    (String ((Ascii (false, false, false, true, false, true, true, false)),
+    (String ((Ascii (true, false, false, false, false, true, true, false)),
+    (String ((Ascii (false, true, true, true, false, true, true, false)),
+    (String ((Ascii (true, true, true, false, false, true, true, false)),
+    (String ((Ascii (true, false, true, false, false, true, true, false)),
+    EmptyString)))))))))))))))))))))))))))))))))))))
+| SCRCertVerify ->
+  String ((Ascii (true, true, false, false, false, false, true, false)),
+    (String ((Ascii (false, true, false, false, true, false, true, false)),
+    (String ((Ascii (true, true, false, false, false, false, true, false)),
+    (String ((Ascii (true, false, true, false, false, true, true, false)),
+    (String ((Ascii (false, true, false, false, true, true, true, false)),
+    (String ((Ascii (false, false, true, false, true, true, true, false)),
+    (String ((Ascii (false, true, true, false, true, false, true, false)),
+    (String ((Ascii (true, false, true, false, false, true, true, false)),
+    (String ((Ascii (false, true, false, false, true, true, true, false)),
+    (String ((Ascii (true, false, false, true, false, true, true, false)),
+    (String ((Ascii (false, true, true, false, false, true, true, false)),
+    (String ((Ascii (true, false, false, true, true, true, true, false)),
+    EmptyString)))))))))))))))))))))))
+| SNoCertSKE ->
+  String ((Ascii (false, true, true, true, false, false, true, false)),
+    (String ((Ascii (true, true, true, true, false, true, true, false)),
+    (String ((Ascii (true, true, false, false, false, false, true, false)),
+    (String ((Ascii (true, false, true, false, false, true, true, false)),
+    (String ((Ascii (false, true, false, false, true, true, true, false)),
+    (String ((Ascii (false, false, true, false, true, true, true, false)),
+    (String ((Ascii (true, true, false, false, true, false, true, false)),
+    (String ((Ascii (true, true, false, true, false, false, true, false)),
+    (String ((Ascii (true, false, true, false, false, false, true, false)),
+    EmptyString)))))))))))))))))
+| SNoCertHelloDone ->
+  String ((Ascii (false, true, true, true, false, false, true, false)),
+    (String ((Ascii (true, true, true, true, false, true, true, false)),
+    (String ((Ascii (true, true, false, false, false, false, true, false)),
+    (String ((Ascii (true, false, true, false, false, true, true, false)),
+    (String ((Ascii (false, true, false, false, true, true, true, false)),
+    (String ((Ascii (false, false, true, false, true, true, true, false)),
+    (String ((Ascii (false, false, false, true, false, false, true, false)),
+    (String ((Ascii (true, false, true, false, false, true, true, false)),
+    (String ((Ascii (false, false, true, true, false, true, true, false)),
+    (String ((Ascii (false, false, true, true, false, true, true, false)),
+    (String ((Ascii (true, true, true, true, false, true, true, false)),
+    (String ((Ascii (false, false, true, false, false, false, true, false)),
+    (String ((Ascii (true, true, true, true, false, true, true, false)),
+    (String ((Ascii (false, true, true, true, false, true, true, false)),
+    (String ((Ascii (true, false, true, false, false, true, true, false)),
+    EmptyString)))))))))))))))))))))))))))))
+| SNoCertCKE ->
+  String ((Ascii (false, true, true, true, false, false, true, false)),
+    (String ((Ascii (true, true, true, true, false, true, true, false)),
+    (String ((Ascii (true, true, false, false, false, false, true, false)),
+    (String ((Ascii (true, false, true, false, false, true, true, false)),
+    (String ((Ascii (false, true, false, false, true, true, true, false)),
+    (String ((Ascii (false, false, true, false, true, true, true, false)),
+    (String ((Ascii (true, true, false, false, false, false, true, false)),
+    (String ((Ascii (true, true, false, true, false, false, true, false)),
+    (String ((Ascii (true, false, true, false, false, false, true, false)),
+    EmptyString)))))))))))))))))
+| SPskHelloDone ->
+  String ((Ascii (false, false, false, false, true, false, true, false)),
+    (String ((Ascii (true, true, false, false, true, true, true, false)),
+    (String ((Ascii (true, true, false, true, false, true, true, false)),
+    (String ((Ascii (false, false, false, true, false, false, true, false)),
+    (String ((Ascii (true, false, true, false, false, true, true, false)),
+    (String ((Ascii (false, false, true, true, false, true, true, false)),
+    (String ((Ascii (false, false, true, true, false, true, true, false)),
+    (String ((Ascii (true, true, true, true, false, true, true, false)),
+    (String ((Ascii (false, false, true, false, false, false, true, false)),
+    (String ((Ascii (true, true, true, true, false, true, true, false)),
+    (String ((Ascii (false, true, true, true, false, true, true, false)),
+    (String ((Ascii (true, false, true, false, false, true, true, false)),
+    EmptyString)))))))))))))))))))))))
+| SPskCKE ->
+  String ((Ascii (false, false, false, false, true, false, true, false)),
+    (String ((Ascii (true, true, false, false, true, true, true, false)),
+    (String ((Ascii (true, true, false, true, false, true, true, false)),
+    (String ((Ascii (true, true, false, false, false, false, true, false)),
+    (String ((Ascii (true, true, false, true, false, false, true, false)),
+    (String ((Ascii (true, false, true, false, false, false, true, false)),
+    EmptyString)))))))))))
+| SSessionEncrypted ->
+  String ((Ascii (true, true, false, false, true, false, true, false)),
+    (String ((Ascii (true, false, true, false, false, true, true, false)),
+    (String ((Ascii (true, true, false, false, true, true, true, false)),
+    (String ((Ascii (true, true, false, false, true, true, true, false)),
+    (String ((Ascii (true, false, false, true, false, true, true, false)),
+    (String ((Ascii (true, true, true, true, false, true, true, false)),
+    (String ((Ascii (false, true, true, true, false, true, true, false)),
+    (String ((Ascii (true, false, true, false, false, false, true, false)),
+    (String ((Ascii (false, true, true, true, false, true, true, false)),
+    (String ((Ascii (true, true, false, false, false, true, true, false)),
+    (String ((Ascii (false, true, false, false, true, true, true, false)),
+    (String ((Ascii (true, false, false, true, true, true, true, false)),
+    (String ((Ascii (false, false, false, false, true, true, true, false)),
+    (String ((Ascii (false, false, true, false, true, true, true, false)),
+    (String ((Ascii (true, false, true, false, false, true, true, false)),
+    (String ((Ascii (false, false, true, false, false, true, true, false)),
+    EmptyString)))))))))))))))))))))))))))))))
+| SAlert ->
+  String ((Ascii (true, false, false, false, false, false, true, false)),
+    (String ((Ascii (false, false, true, true, false, true, true, false)),
+    (String ((Ascii (true, false, true, false, false, true, true, false)),
+    (String ((Ascii (false, true, false, false, true, true, true, false)),
+    (String ((Ascii (false, false, true, false, true, true, true, false)),
+    EmptyString)))))))))
+| SFinished ->
+  String ((Ascii (false, true, true, false, false, false, true, false)),
+    (String ((Ascii (true, false, false, true, false, true, true, false)),
+    (String ((Ascii (false, true, true, true, false, true, true, false)),
+    (String ((Ascii (true, false, false, true, false, true, true, false)),
+    (String ((Ascii (true, true, false, false, true, true, true, false)),
+    (String ((Ascii (false, false, false, true, false, true, true, false)),
+    (String ((Ascii (true, false, true, false, false, true, true, false)),
+    (String ((Ascii (false, false, true, false, false, true, true, false)),
+    EmptyString)))))))))))))))
+| SInvalid ->
+  String ((Ascii (true, false, false, true, false, false, true, false)),
+    (String ((Ascii (false, true, true, true, false, true, true, false)),
+    (String ((Ascii (false, true, true, false, true, true, true, false)),
+    (String ((Ascii (true, false, false, false, false, true, true, false)),
+    (String ((Ascii (false, false, true, true, false, true, true, false)),
+    (String ((Ascii (true, false, false, true, false, true, true, false)),
+    (String ((Ascii (false, false, true, false, false, true, true, false)),
+    EmptyString)))))))))))))
+
+(** val parse_msg_tok : byte list -> mkind * bool **)
+
+let parse_msg_tok t =
+  let a = map parse_dec (split_on X2c t) in
+  let g0 = fun k -> nth k a N0 in
+  let b = fun k -> negb (N.eqb (g0 k) N0) in
+  (match g0 O with
+   | N0 ->
+     ((MkHs ((nth (N.to_nat (g0 (S O))) all_hs_kinds KHelloRequest),
+       (b (S (S O))))), (b (S (S (S (S O))))))
+   | Npos p0 ->
+     (match p0 with
+      | XI p1 ->
+        (match p1 with
+         | XH -> (MkAppData, (b (S (S O))))
+         | _ -> (MkHeartbeat, (b (S (S O)))))
+      | XO p1 ->
+        (match p1 with
+         | XH -> ((MkAlert ((g0 (S O)), (g0 (S (S O))))), (b (S (S (S O)))))
+         | _ -> (MkHeartbeat, (b (S (S O)))))
+      | XH -> (MkCcs, (b (S O)))))
+
+(** val run_states_line :
+    (tlsState -> mkind -> bool -> tlsState option) -> byte list list -> byte
+    list **)
+
+let run_states_line f = function
+| [] ->
+  str (String ((Ascii (false, false, false, true, false, true, false,
+    false)), (String ((Ascii (true, true, false, false, true, true, true,
+    false)), (String ((Ascii (false, false, true, false, true, true, true,
+    false)), (String ((Ascii (true, false, false, false, false, true, true,
+    false)), (String ((Ascii (false, false, true, false, true, true, true,
+    false)), (String ((Ascii (true, false, true, false, false, true, true,
+    false)), (String ((Ascii (true, true, false, false, true, true, true,
+    false)), (String ((Ascii (true, false, false, true, false, true, false,
+    false)), EmptyString))))))))))))))))
+| s0 :: msgs ->
+  let st0 = nth (N.to_nat (parse_dec s0)) all_states SNone in
+  let step0 = fun acc t ->
+    let (out, st) = acc in
+    let (m, d) = parse_msg_tok t in
+    (match f st m d with
+     | Some s' -> ((app out (X20 :: (str (state_name s')))), s')
+     | None ->
+       ((app out
+          (str (String ((Ascii (false, false, false, false, false, true,
+            false, false)), (String ((Ascii (true, false, true, false, false,
+            false, true, false)), (String ((Ascii (false, true, false, false,
+            true, true, true, false)), (String ((Ascii (false, true, false,
+            false, true, true, true, false)), EmptyString)))))))))), SInvalid))
+  in
+  app
+    (fst
+      (fold_left step0 msgs
+        ((str (String ((Ascii (false, false, false, true, false, true, false,
+           false)), (String ((Ascii (true, true, false, false, true, true,
+           true, false)), (String ((Ascii (false, false, true, false, true,
+           true, true, false)), (String ((Ascii (true, false, false, false,
+           false, true, true, false)), (String ((Ascii (false, false, true,
+           false, true, true, true, false)), (String ((Ascii (true, false,
+           true, false, false, true, true, false)), (String ((Ascii (true,
+           true, false, false, true, true, true, false)),
+           EmptyString))))))))))))))), st0)))
+    (str (String ((Ascii (true, false, false, true, false, true, false,
+      false)), EmptyString)))
+
+type who =
+| C
+| S0
+| AnySide
+
+type stepmsg =
+| HsM of hs_kind
+| ChNoSid
+| ChSid
+| Ccs
+
+type step = (stepmsg * who) * tlsState
+
+type flow = tlsState * step list
+
+(** val flows : flow list **)
+
+let flows =
+  (SNone, (((ChNoSid, C), SClientHello) :: ((((HsM KServerHello), S0),
+    SServerHello) :: ((((HsM KCertificate), S0), SCertificate) :: ((((HsM
+    KServerKeyExchange), S0), SServerKeyExchange) :: ((((HsM KServerDone),
+    S0), SServerHelloDone) :: ((((HsM KClientKeyExchange), C),
+    SClientKeyExchange) :: (((Ccs, AnySide),
+    SClientChangeCipherSpec) :: (((Ccs, S0),
+    SSessionEncrypted) :: []))))))))) :: ((SCertificate, ((((HsM
+    KCertificateStatus), S0), SCertificateSt) :: ((((HsM KServerKeyExchange),
+    S0), SServerKeyExchange) :: []))) :: ((SCertificate, ((((HsM
+    KCertificateRequest), S0), SCRCertRequest) :: ((((HsM KServerDone), S0),
+    SCRHelloDone) :: ((((HsM KCertificate), C), SCRCert) :: ((((HsM
+    KClientKeyExchange), C), SCRClientKeyExchange) :: ((((HsM
+    KCertificateVerify), C), SCRCertVerify) :: (((Ccs, AnySide),
+    SClientChangeCipherSpec) :: []))))))) :: ((SServerKeyExchange, ((((HsM
+    KCertificateRequest), S0),
+    SCRCertRequest) :: [])) :: ((SCRClientKeyExchange, (((Ccs, AnySide),
+    SClientChangeCipherSpec) :: [])) :: ((SServerHello, ((((HsM
+    KServerKeyExchange), S0), SNoCertSKE) :: ((((HsM KServerDone), S0),
+    SNoCertHelloDone) :: ((((HsM KClientKeyExchange), C),
+    SNoCertCKE) :: (((Ccs, AnySide),
+    SClientChangeCipherSpec) :: []))))) :: ((SCertificate, ((((HsM
+    KServerDone), S0), SPskHelloDone) :: ((((HsM KClientKeyExchange), C),
+    SPskCKE) :: (((Ccs, AnySide),
+    SClientChangeCipherSpec) :: [])))) :: ((SNone, (((ChSid, C),
+    SAskResumeSession) :: ((((HsM KServerHello), S0),
+    SResumeSession) :: (((Ccs, AnySide),
+    SClientChangeCipherSpec) :: [])))) :: ((SResumeSession, ((((HsM
+    KCertificate), S0), SCertificate) :: [])) :: ((SClientHello, ((((HsM
+    KServerHelloV13Draft18), S0),
+    SClientChangeCipherSpec) :: [])) :: ((SAskResumeSession, (((Ccs, C),
+    SAskResumeSession) :: [])) :: ((SClientChangeCipherSpec, ((((HsM
+    KNewSessionTicket), S0), SClientChangeCipherSpec) :: [])) :: [])))))))))))
+
+(** val path_edges :
+    tlsState -> step list -> (((tlsState * stepmsg) * who) * tlsState) list **)
+
+let rec path_edges from = function
+| [] -> []
+| s :: t ->
+  let (p1, to0) = s in
+  let (m, w) = p1 in (((from, m), w), to0) :: (path_edges to0 t)
+
+(** val edges : (((tlsState * stepmsg) * who) * tlsState) list **)
+
+let edges =
+  flat_map (fun f -> path_edges (fst f) (snd f)) flows
+
+(** val who_m : who -> bool -> bool **)
+
+let who_m w to_server =
+  match w with
+  | C -> to_server
+  | S0 -> negb to_server
+  | AnySide -> true
+
+(** val stepmsg_m : stepmsg -> akind -> bool **)
+
+let stepmsg_m m a =
+  match m with
+  | HsM k ->
+    (match a with
+     | AHs (k', _) ->
+       (&&) (hs_kind_beq k k') (negb (hs_kind_beq k KClientHello))
+     | _ -> false)
+  | ChNoSid ->
+    (match a with
+     | AHs (k, has_sid) ->
+       (match k with
+        | KClientHello -> if has_sid then false else true
+        | _ -> false)
+     | _ -> false)
+  | ChSid ->
+    (match a with
+     | AHs (k, has_sid) -> (match k with
+                            | KClientHello -> has_sid
+                            | _ -> false)
+     | _ -> false)
+  | Ccs -> (match a with
+            | ACcs -> true
+            | _ -> false)
+
+(** val find_edge : tlsState -> akind -> bool -> tlsState option **)
+
+let find_edge st a d =
+  match find (fun e0 ->
+          let (y, _) = e0 in
+          let (y1, w) = y in
+          let (from, m) = y1 in
+          (&&) ((&&) (tlsState_beq from st) (stepmsg_m m a)) (who_m w d))
+          edges with
+  | Some p0 -> let (_, to0) = p0 in Some to0
+  | None -> None
+
+(** val spec_a : tlsState -> akind -> bool -> tlsState option **)
+
+let spec_a st a d =
+  match st with
+  | SSessionEncrypted -> Some SSessionEncrypted
+  | SFinished -> Some SInvalid
+  | SInvalid -> Some SInvalid
+  | _ ->
+    (match a with
+     | AHs (k, _) ->
+       (match find_edge st a d with
+        | Some to0 -> Some to0
+        | None ->
+          (match k with
+           | KHelloRequest -> (match st with
+                               | SNone -> None
+                               | _ -> Some st)
+           | _ -> None))
+     | ACcs -> find_edge st a d
+     | AAlert warning -> Some (if warning then st else SFinished)
+     | _ -> None)
+
+(** val wARNING : n **)
+
+let wARNING =
+  Npos XH
+
+(** val spec_transition : tlsState -> mkind -> bool -> tlsState option **)
+
+let spec_transition st m to_server =
+  spec_a st (abs_kind wARNING m) to_server
+
 (** val all_entries : (string * entry_fn) list **)
 
 let all_entries =
@@ -9406,27 +10412,58 @@ let run_line line0 =
       false)), (String ((Ascii (true, false, false, true, false, true, false,
       false)), EmptyString))))))))))))))
   | name :: rest ->
-    (match find_entry name all_entries with
-     | Some f ->
-       let (args, inp) = split_last rest in
-       let b =
-         match inp with
-         | Some h -> if beq_bytes h (X2d :: []) then [] else unhex h
-         | None -> []
-       in
-       f (map parse_dec args) b
-     | None ->
-       str (String ((Ascii (false, false, false, true, false, true, false,
-         false)), (String ((Ascii (false, true, true, true, false, true,
-         true, false)), (String ((Ascii (true, true, true, true, false, true,
-         true, false)), (String ((Ascii (true, false, true, false, false,
-         true, true, false)), (String ((Ascii (false, true, true, true,
-         false, true, true, false)), (String ((Ascii (false, false, true,
-         false, true, true, true, false)), (String ((Ascii (false, true,
-         false, false, true, true, true, false)), (String ((Ascii (true,
-         false, false, true, true, true, true, false)), (String ((Ascii
-         (true, false, false, true, false, true, false, false)),
-         EmptyString)))))))))))))))))))
+    if beq_bytes name
+         (str (String ((Ascii (true, true, false, false, true, true, true,
+           false)), (String ((Ascii (false, false, true, false, true, true,
+           true, false)), (String ((Ascii (true, false, false, false, false,
+           true, true, false)), (String ((Ascii (false, false, true, false,
+           true, true, true, false)), (String ((Ascii (true, false, true,
+           false, false, true, true, false)), (String ((Ascii (true, true,
+           false, false, true, true, true, false)), EmptyString)))))))))))))
+    then run_states_line tls_state_transition rest
+    else if beq_bytes name
+              (str (String ((Ascii (true, true, false, false, true, true,
+                true, false)), (String ((Ascii (false, false, false, false,
+                true, true, true, false)), (String ((Ascii (true, false,
+                true, false, false, true, true, false)), (String ((Ascii
+                (true, true, false, false, false, true, true, false)),
+                (String ((Ascii (false, true, true, true, false, true, false,
+                false)), (String ((Ascii (true, true, false, false, true,
+                true, true, false)), (String ((Ascii (false, false, true,
+                false, true, true, true, false)), (String ((Ascii (true,
+                false, false, false, false, true, true, false)), (String
+                ((Ascii (false, false, true, false, true, true, true,
+                false)), (String ((Ascii (true, false, true, false, false,
+                true, true, false)), (String ((Ascii (true, true, false,
+                false, true, true, true, false)),
+                EmptyString)))))))))))))))))))))))
+         then app
+                (str (String ((Ascii (true, false, true, true, true, true,
+                  false, false)), (String ((Ascii (false, false, false,
+                  false, false, true, false, false)), EmptyString)))))
+                (run_states_line spec_transition rest)
+         else (match find_entry name all_entries with
+               | Some f ->
+                 let (args, inp) = split_last rest in
+                 let b =
+                   match inp with
+                   | Some h -> if beq_bytes h (X2d :: []) then [] else unhex h
+                   | None -> []
+                 in
+                 f (map parse_dec args) b
+               | None ->
+                 str (String ((Ascii (false, false, false, true, false, true,
+                   false, false)), (String ((Ascii (false, true, true, true,
+                   false, true, true, false)), (String ((Ascii (true, true,
+                   true, true, false, true, true, false)), (String ((Ascii
+                   (true, false, true, false, false, true, true, false)),
+                   (String ((Ascii (false, true, true, true, false, true,
+                   true, false)), (String ((Ascii (false, false, true, false,
+                   true, true, true, false)), (String ((Ascii (false, true,
+                   false, false, true, true, true, false)), (String ((Ascii
+                   (true, false, false, true, true, true, true, false)),
+                   (String ((Ascii (true, false, false, true, false, true,
+                   false, false)), EmptyString)))))))))))))))))))
 
 (** val entry_names : byte list list **)
 
